@@ -150,7 +150,8 @@ CHECKS = {
         "on doubles. Oracle: exact Fraction inverse, numpy, residual bound 64 n cond eps, purity, exceptions.",
    note="Modelled rather than verified: real arithmetic (rounding bound and NaN/inf handling are checked by the "
         "oracle only); the numpy fall-back path of inv is not modelled (the oracle runs on it by toggling the module "
-        "flag). Open finding F13 (fit_general on collinear points with inexact elimination) is reported as KNOWN-FINDING.",
+        "flag). Finding F13 (fit_general on collinear points with inexact elimination) was repaired in /repo (7128071); its "
+        "witness and the weighted degenerate configurations are regression probes of every run.",
    technique="Lean 4 proof (Gauss-Jordan invariant, induction over elimination steps) + differential correspondence",
    ref="5/C17"),
 }
